@@ -375,7 +375,7 @@ def run(ctx, report: Report) -> None:
     r8.findings[:] = [f for f in r8.findings if 'error offset' in f.key]
 
     # ---- R9 (texts compiled by interpretation, bounded) -----------------------------------------------------------------
-    r9 = report.rule('C20-R9', 'compiling with and without the DEBUG flag gives the same structure or the same error (bounded)', floor=8)
+    r9 = report.rule('C20-R9', 'compiling with and without the DEBUG flag gives the same structure or the same error (bounded)', floor=7)
     from .e2etab import debug_invariance_table
     debug_invariance_table(ctx, r9)
 
